@@ -58,7 +58,7 @@ def run(ctx):
     ctx.exception("changeset::ChangeSet::<T>::add", "R4: its storage is the concrete DenseVecStorage, which owns its values in a Vec; "
                   "an unwinding mask update leaves an unreachable but owned value (no double drop, no leak)")
     for cfg in configs(ctx.tier):
-        facts = ctx.facts(cfg)
+        facts = ctx.xfacts(cfg)
         r1(ctx, facts)
         r2(ctx, facts)
         r3(ctx, facts)
